@@ -198,6 +198,8 @@ def c08_cases(rng, tier):
             cases.append(udp_case("rxudp-c08", "hu%d" % i, asize, ops, {"kind": "hostile-udp"}))
         else:
             size = rng.choice([16, 64, 4096, 4096])
+            if len(d) > 8000:
+                size = 4096      # the model's fragment concatenation is quadratic in the number of fragments
             k = rng.choice([0, 1, 3, 10])
             chunks = segment(d, random_cuts(rng, len(d), k))
             cases.append(stream_case("rxstream-c08", "hs%d" % i, size, chunks, {"kind": "hostile-stream"}))
